@@ -73,7 +73,7 @@ Example C14_example_result :
    (MpEpilogue, None, None, None, mp_str "epilogue")].
 Proof. vm_compute. reflexivity. Qed.
 
-(* (d) exactness on the encoder image: NOT proved in general. The full statement stays a definition; it is checked on
+(* (d) exactness on the encoder image (proved below: C14_exact, C14_exact_any_chunking); it is also checked on
    the implementation by the ground-truth oracle of lib/c14.py and instantiated below on a concrete part list. *)
 Definition C14_exact_full : Prop :=
   forall b parts, mp_wfb b parts = true ->
@@ -117,7 +117,7 @@ Theorem cd_quoted_scan : forall n rest acc,
 Proof. exact mp_cd_quoted_quote. Qed.
 Print Assumptions cd_unquote_roundtrip.
 
-(* (e) boundary extraction: the general statement is NOT proved; it stays a definition, is instantiated on the
+(* (e) boundary extraction: the general statement (proved at the end of this file: C14_find_boundary) is also instantiated on the
    headers the five major browsers send (comment in htp_multipart.c), and htp_mpartp_find_boundary is tied to
    mp_find_boundary by the correspondence run (lib/c14.py, gen_fb). *)
 Definition mp_plain_bchar (c : N) : bool := mp_in 48 57 c || mp_in 97 122 c || mp_in 65 90 c || (c =? mp_DASH)%N.
@@ -141,3 +141,45 @@ Example find_boundary_anomalies :
   = [c_mp_HBOUNDARY_UNUSUAL + c_mp_HBOUNDARY_INVALID; c_mp_HBOUNDARY_UNUSUAL + c_mp_HBOUNDARY_INVALID; c_mp_HBOUNDARY_INVALID;
      c_mp_HBOUNDARY_INVALID; c_mp_HBOUNDARY_INVALID; c_mp_HBOUNDARY_INVALID]%N.
 Proof. vm_compute. reflexivity. Qed.
+
+(* ---- (d') EXACTNESS, proved: every well-formed form (mp_wfb: text parts with arbitrary names -- quotes and backslashes included --, file parts with file name and
+        optional content type, values and file contents ARBITRARY bytes not containing the delimiter) encoded the standard way is parsed back into exactly
+        those parts: kinds, unquoted names, file names, lower-cased content types, byte-exact values; nothing else is reported. ---- *)
+Require Import Htp.Proof.PMultipartExactRef Htp.Proof.PMultipartExact Htp.Proof.PMultipartBoundary.
+Theorem C14_exact : C14_exact_full.
+Proof. exact mp_exact_whole. Qed.
+Print Assumptions C14_exact.
+(* ... and for EVERY chunking of the encoded body; the one premise that survives is the K1 one (a call starting with CR right after a call that ended
+   in a set-aside CR: listed finding), all other chunking premises follow from well-formedness. This is property C14 for well-formed forms. *)
+Theorem C14_exact_any_chunking : forall b parts chunks,
+  mp_wfb b parts = true -> concat chunks = mp_encode b parts -> mp_no_cr_hazardb b 0 chunks = true ->
+  map mp_report (mp_parts (mp_finalize (fold_left mp_parse chunks (mp_init b)))) = map mp_expect parts /\
+  mps_fault (mp_finalize (fold_left mp_parse chunks (mp_init b))) = false.
+Proof. exact mp_exact_chunked. Qed.
+Print Assumptions C14_exact_any_chunking.
+(* the K1 premise is necessary: a well-formed form (file data "a CR") whose byte-by-byte delivery loses the CR *)
+Theorem C14_exact_chunked_needs_no_cr_hazard :
+  mp_wfb mpx_ex_b mpx_k1_parts = true /\
+  concat (mpx_bytewise (mp_encode mpx_ex_b mpx_k1_parts)) = mp_encode mpx_ex_b mpx_k1_parts /\
+  mp_no_cr_hazardb mpx_ex_b 0 (mpx_bytewise (mp_encode mpx_ex_b mpx_k1_parts)) = false /\
+  map mp_report (mp_parts (mp_finalize (fold_left mp_parse (mpx_bytewise (mp_encode mpx_ex_b mpx_k1_parts)) (mp_init mpx_ex_b)))) =
+    [(MpFile, Some [102%N], Some [103%N], None, [97%N])] /\
+  map mp_expect mpx_k1_parts = [(MpFile, Some [102%N], Some [103%N], None, [97%N; 13%N])].
+Proof. exact mp_exact_chunked_needs_no_cr_hazard. Qed.
+(* the reference semantics accepts every encoder image and reports the expected parts *)
+Theorem C14_reference_exact : forall b parts, mp_wfb b parts = true ->
+  snd (mp_aref b 0 (mp_encode b parts)) = true /\ map mp_report (mp_aparts (fst (mp_aref b 0 (mp_encode b parts)))) = map mp_expect parts.
+Proof. exact mp_aref_exact. Qed.
+Print Assumptions C14_reference_exact.
+
+(* ---- (e') boundary extraction, proved ---- *)
+Theorem C14_find_boundary : find_boundary_spec_full.
+Proof. exact mp_find_boundary_spec. Qed.
+Print Assumptions C14_find_boundary.
+Theorem C14_find_boundary_quoted : forall b, b <> [] -> length b <= 70 -> forallb mp_plain_bchar b = true ->
+  mp_find_boundary (mp_str "multipart/form-data; boundary=""" ++ b ++ mp_str """") = (c_HTP_OK, Some b, c_mp_HBOUNDARY_UNUSUAL).
+Proof. exact mp_find_boundary_spec_quoted. Qed.
+Theorem C14_find_boundary_after_charset : forall b, b <> [] -> length b <= 70 -> forallb mp_plain_bchar b = true ->
+  mp_find_boundary (mp_str "multipart/form-data; charset=utf-8; boundary=" ++ b) = (c_HTP_OK, Some b, 0%N).
+Proof. exact mp_find_boundary_spec_charset. Qed.
+Print Assumptions C14_find_boundary_quoted.
